@@ -21,7 +21,7 @@ Theorem C10_redeemer_keys_distinct : forall rs,
 Proof. exact redeemers_keys_distinct. Qed.
 
 (** reference inputs, collateral inputs and required signers are listed once each, whatever the
-    template repeats (finding F10-2, repaired: a reference named by two blocks was listed twice) *)
+    template repeats (finding F10-4, repaired: a reference named by two blocks was listed twice) *)
 Theorem C10_set_fields_distinct : forall mainnet addr_parse addr_of_string keyhash_of_addr reward_of_addr native_script_ok has_cost_model t a,
   compile_tx mainnet addr_parse addr_of_string keyhash_of_addr reward_of_addr native_script_ok has_cost_model t = Ok a ->
   opt_NoDup (a_refs a) /\ opt_NoDup (a_collateral a) /\ opt_NoDup (a_signers a).
